@@ -42,6 +42,7 @@ def setup(ctx):
     ctx.require("monitor", "scheduled_histories", 20)
     ctx.require("monitor", "wired_decisions", 30)
     ctx.require("monitor", "wired_tls_decisions", 40)
+    ctx.require("monitor", "wired_through_serve_command", 3)
 
 
 class VTime:
@@ -311,13 +312,32 @@ def run_wired(ctx):
             ("explicit-config", dict(enable_rate_limiting=True, rate_limit_config=RateLimitConfig(capacity=4, refill_rate=0.25, retry_after=5)), {"capacity": 4, "rate": 0.25, "retry_after": 5}),
             ("toml-as-main-does", dict(enable_rate_limiting=sc_toml.enable_rate_limiting, rate_limit_config=sc_toml.get_rate_limit_config()), {"capacity": 3, "rate": 0.5, "retry_after": 9}),
         ]
+        # the same file through the command line (`nauyaca serve --config file`), and a file that says nothing
+        # about rate limiting (documented defaults: on, capacity 10, 1 token/s, retry after 30 s)
+        toml_plain = os.path.join(base, "plain.toml")
+        with open(toml_plain, "wb") as f:
+            tomli_w.dump({"server": {"host": "127.0.0.1", "port": 1965, "document_root": os.path.join(base, "doc")}}, f)
+        variants += [("serve-command:toml", {"serve": ["--config", toml]}, {"capacity": 3, "rate": 0.5, "retry_after": 9}),
+                     ("serve-command:toml-silent-about-limits", {"serve": ["--config", toml_plain]}, {"capacity": 10, "rate": 1.0, "retry_after": 30}),
+                     ("serve-command:no-file", {"serve": [os.path.join(base, "doc")]}, {"capacity": 10, "rate": 1.0, "retry_after": 30})]
         for name, kw, cfg in variants:
             loop = new_loop()
             old_time = M.time
             M.time = VTime(loop)
             try:
-                with contextlib.redirect_stdout(io.StringIO()):
-                    cap = capture_factory(dict(kw, log_level="CRITICAL"), sc_toml if name.startswith("toml") else ServerConfig(host="127.0.0.1", port=1965, document_root=os.path.join(base, "doc")))
+                if "serve" in kw:
+                    from vf.gen import certs
+                    from vf.sim import capture_serve
+
+                    ident = certs.identity("capture-server", "ec")
+                    cap = capture_serve(kw["serve"] + ["--cert", ident.certfile, "--key", ident.keyfile, "--log-level", "CRITICAL"])
+                    if "factory" not in cap:
+                        ctx.inconclusive_because(f"serve command did not start ({name}): {cap['output'][-100:]!r}")
+                        continue
+                    ctx.count("monitor", "wired_through_serve_command")
+                else:
+                    with contextlib.redirect_stdout(io.StringIO()):
+                        cap = capture_factory(dict(kw, log_level="CRITICAL"), sc_toml if name.startswith("toml") else ServerConfig(host="127.0.0.1", port=1965, document_root=os.path.join(base, "doc")))
                 quiet_logs()
                 import asyncio as _a
 
